@@ -695,11 +695,13 @@ func classifyDiff(d *diff, s string, in *parsed, keep bool) string {
 			if a.name != d.attr {
 				continue
 			}
-			if attrHasK27(a) {
-				return knownSig["K27"]
-			}
+			// N03 first: a literal CRLF explains a value that gained a space; K27 (fixed in /repo) was about references
+			// decoded to raw characters, which cannot add a character
 			if strings.Contains(a.raw, "\r\n") {
 				return knownSig["N03"]
+			}
+			if attrHasK27(a) {
+				return knownSig["K27"]
 			}
 		}
 	case "pi-data-changed":
